@@ -315,7 +315,9 @@ def run(ctx):
     fam = {"T-n2": (table_tree([2], (E2, L2, R2, [1]), TOL_GRID), "T"),
            "T-n2-split": (table_tree([2], ([1, 1.004], [1], [0.25, 0.254], [1, 2]), TOL_GRID), "Tb"),
            "T-n3": (table_tree([3], T3, TOL_GRID), "T"),
-           "T-n2-2obj": (table_tree([2], ([1, 1.004], [1, 1.09], [0.25], [1]), TOL_GRID), "T")}
+           "T-n2-2obj": (table_tree([2], ([1, 1.004], [1, 1.09], [0.25], [1]), TOL_GRID), "T"),
+           # values on both sides of 1.0: the log-scale bucket with index 0 (negative and positive logs meet)
+           "T-n2-bucket0": (table_tree([2], ([0.6, 0.88, 0.993, 1.004, 1.2], [1], [0.88, 1.0], [1]), TOL_GRID), "T")}
     if not q:
         fam["T-n3-2val"] = (table_tree([3], ([1, 1.09], [1, 1.004], [0.25, 0.3], [1]), TOL_GRID), "T")
     tree, body = union(fam)
